@@ -180,6 +180,9 @@ def run(ctx):
     rm.extractor_runs_idle_clause(ctx, res, 'C03', 'C03.i')
     rm.api_leaves_replay_state_clause(ctx, res, 'C03', 'C03.j')
     rm.ordinals_only_when_intercepted_clause(ctx, res, 'C03', 'C03.k')
+    from . import common as _ci
+    _ci.import_clauses(ctx, res, 'C12', ['C12.a', 'C12.d'], 'C03', 'C03.l', 'R-ORDER',
+                       'recording through the asynchronous cassette stores every captured entry (each buffered write applied once, in order)', floor=2)
     # ---- C03.h the helpers that build the operation entry and the keys keep no state between calls
     ch = res.clause('C03.h', 'R-PROV', 'capture helpers (exception form, key builders) are stateless', floor=2)
     helpers = [roles.key_builders['output'], roles.key_builders['input']]
